@@ -133,12 +133,6 @@ theorem status_ping_decodes (id : Int) (ok : i64 id) : decStatusPing (encStatusP
 
 /-! ### login start (all key / uuid eras) -/
 
-theorem loginHolder_eq (s : ServerLogin) : loginHolder s = meantHolder s := by
-  unfold loginHolder meantHolder keyHolderSet
-  cases hk : s.key with
-  | none => simp
-  | some k => by_cases hh : (k.holder != nilUUID) = true <;> simp [hh]
-
 theorem login_start_decodes (p : Int) (s : ServerLogin) (ok : okLoginStart s) :
     ∃ bs, encServerLogin p s = some bs ∧ decLoginStart p bs = .ok (meantLoginStart p s) := by
   obtain ⟨hne, hname, hhold, hkey⟩ := ok
@@ -359,8 +353,9 @@ theorem login_plugin_response_decodes (r : LoginPluginResponse) (ok : okLoginPlu
 /-! ### disconnect (per state), keep-alive eras, transfer -/
 
 theorem disconnect_decodes (p : Int) (login : Bool) (c : Comp) (ok : okDisconnect p login c)
-    (okn : login = false → compNbtOk p c) :
+    (oknc : login = false → compNbtClosed p c) :
     ∃ bs, encDisconnect p login (some c) = some bs ∧ decDisconnect p login bs = .ok (meantDisconnect p login c) := by
+  have okn : login = false → compNbtOk p c := fun h => compNbtOk_of_closed p c (oknc h)
   refine ⟨_, rfl, ?_⟩
   unfold decDisconnect meantDisconnect okDisconnect at *
   cases login with
@@ -450,8 +445,9 @@ theorem plugin_channel_defective_fails :
     all actions existing in that protocol) and every entry list, the vanilla decoder recovers the action
     set and, per entry, exactly the selected fields -/
 theorem upsert_decodes (p : Int) (acts : List Action) (es : List Entry)
-    (ok : okUpsert p acts es) (okn : ∀ e ∈ es, entryNbtOk p acts e) :
+    (ok : okUpsert p acts es) (oknc : ∀ e ∈ es, entryNbtClosed p acts e) :
     decUpsert p (encUpsert p acts es) = .ok (meantUpsert p acts es) := by
+  have okn : ∀ e ∈ es, entryNbtOk p acts e := fun e he => entryNbtOk_of_closed p acts e (oknc e he)
   unfold decUpsert
   have := rdUpsert_rt p acts es [] ok okn
   rw [List.append_nil] at this
@@ -500,6 +496,11 @@ theorem remove_decodes (ids : List Bytes) (ok : okRemove ids) : decRemove (encRe
   rw [List.append_nil] at this
   rw [this]; rfl
 
+/-- the NBT side condition is decidable: whatever one nameless tag the reference reader accepts
+    exactly is self-delimiting in front of every continuation -/
+theorem nbt_closed_is_wf (blob : Bytes) (h : nbtClosed blob = true) : WfNbt blob :=
+  wfNbt_of_closed blob (nbtClosed_spec blob h)
+
 /-! ### non-vacuity: the domains are inhabited, the NBT hypothesis is satisfiable -/
 
 example : okHandshake 767 ⟨767, asc "localhost", 25565, 2⟩ := by decide
@@ -513,11 +514,14 @@ example : okLoginPluginResponse ⟨1, false, []⟩ := by decide
 example : okPluginMessage 767 false ⟨asc "MC|Brand", asc "gate"⟩ := by decide
 example : okPluginMessage 4 true ⟨asc "FML|HS", [1, 2, 3]⟩ := by decide
 example : okDisconnect 767 false ⟨asc "{}", 8, [0, 1, 65]⟩ := by decide
-/-- a plain-text component in NBT form (string tag) satisfies the NBT hypothesis … -/
-example : compNbtOk 767 ⟨asc "\"A\"", 8, [0, 1, 65]⟩ := fun _ => wfNbt_string [65] (by decide)
-/-- … and so does the compound `{text:"A"}` -/
-example : compNbtOk 767 ⟨asc "{}", 10, [8, 0, 4, 116, 101, 120, 116, 0, 1, 65, 0]⟩ :=
-  fun _ => wfNbt_text_compound [65] (by decide)
+/-- a plain-text component in NBT form (string tag) satisfies the NBT condition … -/
+example : compNbtClosed 767 ⟨asc "\"A\"", 8, [0, 1, 65]⟩ := by decide
+/-- … and so does the compound `{text:"A"}`; in general every string tag / text compound does -/
+example : compNbtClosed 767 ⟨asc "{}", 10, [8, 0, 4, 116, 101, 120, 116, 0, 1, 65, 0]⟩ := by decide
+example (s : Bytes) (h : s.length < 65536) : WfNbt (8 :: (beBytes 2 s.length ++ s)) := wfNbt_string s h
+example (s : Bytes) (h : s.length < 65536) :
+    WfNbt (10 :: 8 :: 0 :: 4 :: 116 :: 101 :: 120 :: 116 :: (beBytes 2 s.length ++ s ++ [0])) :=
+  wfNbt_text_compound s h
 example : okUpsert 767 [0, 4, 3, 5, 1, 2] [witnessEntry] := by decide
 example : okRemove [List.replicate 16 9] := by decide
 
